@@ -533,6 +533,9 @@ pub fn prot(it: &Item, cx: &mut MCtx) -> R<MProt> {
     if inner.has_undefined() {
         cx.unspecified = Some("undefined inside protected header");
     }
+    if inner.has_quirky_bignum() {
+        cx.unspecified = Some("out-of-range bignum inside protected header");
+    }
     let h = header(&inner.normalize(), cx)?;
     Ok(MProt {
         bytes: Some(b.clone()),
@@ -882,6 +885,9 @@ pub fn kdf(it: &Item, cx: &mut MCtx) -> R<MKdf> {
 pub fn decode(ty: Ty, it: &Item) -> Verdict<MVal> {
     if it.has_undefined() {
         return Verdict::Unspecified("undefined / unassigned simple value in the item");
+    }
+    if it.has_quirky_bignum() {
+        return Verdict::Unspecified("tag 2/3 over a short byte string whose value is outside [-2^64, 2^64-1]");
     }
     let mut cx = MCtx::new();
     let r: R<MVal> = match ty {
